@@ -288,6 +288,8 @@ def _hasattr(ex, st, obj, name, text):
             return [(st, ("val", V.B(True)))]
         nm = z3.simplify(Val.s(name))
         return [(st, ("val", V.B(hasattr(obj.py, nm.as_string()))))]
+    st = st.copy()
+    st.assume(z3.Implies(z3.And(V.is_fun(obj), Val.s(name) == sv("__call__")), has_attr(obj, Val.s(name))))
     return [(st, ("val", V.VBool(has_attr(obj, Val.s(name)))))]
 
 
@@ -1056,3 +1058,223 @@ def _get_logger(ex, st, args, kwargs, text):
     st.assume(z3.And(V.is_obj(lg), Val.ref(lg) >= 0, C.subclass(C.cls_of(Val.ref(lg)), logging.Logger)))
     st.settype(lg, logging.Logger)
     return [(st, ("val", lg))]
+
+
+# --- queue.Queue / Thread / RLock -----------------------------------------------------------------------------
+QUEUE = "queue.Queue"
+THREAD = "threading.Thread"
+FIELDS.declare(QUEUE, "maxsize")
+FIELDS.declare(QUEUE, "unfinished_tasks")
+FIELDS.declare(QUEUE, "all_tasks_done", type="threading.Condition")
+FIELDS.declare(THREAD, "daemon")
+FIELDS.declare(THREAD, "name")
+
+
+
+cond_owner = z3.Function("cond_owner", z3.IntSort(), z3.IntSort())     # the queue a Condition object belongs to
+
+
+def _ctor_queue(ex, st, args, kwargs, text):
+    """queue.Queue(maxsize): a new empty queue"""
+    st = st.copy()
+    q = st.alloc(_queue.Queue)
+    ms = ex.lift(args[0]) if args else V.I(0)
+    st.write(Val.ref(q), "maxsize", ms)
+    st.write(Val.ref(q), "unfinished_tasks", V.I(0))
+    cond = st.alloc(_threading.Condition)
+    st.write(Val.ref(q), "all_tasks_done", cond)
+    st.assume(cond_owner(Val.ref(cond)) == Val.ref(q))
+    st.ghost["q_items"] = V.empty_list()
+    return [(st, ("val", q))]
+
+
+def _ctor_thread(ex, st, args, kwargs, text):
+    """threading.Thread(target=..., name=...): a new, not started thread object"""
+    st = st.copy()
+    t = st.alloc(_threading.Thread)
+    st.write(Val.ref(t), "name", ex.lift(kwargs.get("name", V.VNone)) if not isinstance(kwargs.get("name"), type(None)) else V.VNone)
+    st.write(Val.ref(t), "daemon", V.B(False))
+    return [(st, ("val", t))]
+
+
+def _ctor_rlock(ex, st, args, kwargs, text):
+    """threading.RLock(): a new re-entrant lock"""
+    st = st.copy()
+    l = st.alloc(type(_threading.RLock()))
+    return [(st, ("val", l))]
+
+
+_B._CTORS[_queue.Queue] = _ctor_queue
+_B._CTORS[_threading.Thread] = _ctor_thread
+_B._FUNCS[_threading.RLock] = _ctor_rlock
+
+
+def _q(st):
+    g = TABLE.ghost(st, "q_items")
+    st.assume(z3.And(V.is_list(g), Val.llen(g) >= 0))
+    return g
+
+
+@TABLE.register("queue.Queue.put")
+def _q_put(ex, st, args, kwargs, text):
+    """Queue.put(item, block, timeout): appends item to the queue (ghost q_items and the never-shrinking pool_accepted),
+    unfinished_tasks += 1; raises queue.Full only when the queue is bounded (maxsize > 0)"""
+    q, item = ex.lift(args[0]), ex.lift(args[1])
+    st = st.copy()
+    g = _q(st)
+    ms = st.read(Val.ref(q), "maxsize")
+    s_full = st.copy()
+    s_full.assume(z3.And(V.is_int(ms), Val.i(ms) > 0))
+    s_full.sig.append("put:Full")
+    out = []
+    if ex.feasible(s_full):
+        out.append((s_full, ("raise", ex.make_exc(s_full, _queue.Full))))
+    st.ghost["q_items"] = V.VList(Val.llen(g) + 1, z3.Store(Val.lat(g), Val.llen(g), item))
+    TABLE.ghost_append(st, "pool_accepted", item)
+    st.ghost["q_puts"] = TABLE.ghost(st, "q_puts") + 1
+    u = st.read(Val.ref(q), "unfinished_tasks")
+    st.write(Val.ref(q), "unfinished_tasks", V.VInt(Val.i(u) + 1))
+    return [(st, ("val", V.VNone))] + out
+
+
+def _q_get(ex, st, args, kwargs, text):
+    """Queue.get / get_nowait: removes and returns the head (each item is delivered to exactly one caller), q_gets += 1;
+    or raises queue.Empty"""
+    st = st.copy()
+    g = _q(st)
+    s_e = st.copy()
+    s_e.sig.append("get:Empty")
+    out = [(s_e, ("raise", ex.make_exc(s_e, _queue.Empty)))]
+    s_ok = st.copy()
+    s_ok.assume(Val.llen(g) >= 1)
+    item = z3.Select(Val.lat(g), 0)
+    j = z3.Int("j!q")
+    s_ok.ghost["q_items"] = V.VList(Val.llen(g) - 1, z3.Lambda([j], z3.Select(Val.lat(g), j + 1)))
+    s_ok.ghost["q_gets"] = TABLE.ghost(s_ok, "q_gets") + 1
+    return [(s_ok, ("val", item))] + out
+
+
+TABLE.register("queue.Queue.get", _q_get)
+
+
+@TABLE.register("queue.Queue.get_nowait")
+def _q_get_nowait(ex, st, args, kwargs, text):
+    """Queue.get_nowait(): removes and returns the head (q_gets += 1), or raises queue.Empty exactly when the queue is
+    empty"""
+    res = _q_get(ex, st, args, kwargs, text)
+    out = []
+    for s, oc in res:
+        if oc[0] == "raise":
+            s.assume(Val.llen(TABLE.ghost(s, "q_items")) == 0)
+            if not ex.feasible(s):
+                continue
+        out.append((s, oc))
+    return out
+
+
+@TABLE.register("queue.Queue.task_done")
+def _q_task_done(ex, st, args, kwargs, text):
+    """Queue.task_done(): unfinished_tasks -= 1, q_dones += 1"""
+    q = ex.lift(args[0])
+    st = st.copy()
+    u = st.read(Val.ref(q), "unfinished_tasks")
+    st.write(Val.ref(q), "unfinished_tasks", V.VInt(Val.i(u) - 1))
+    st.ghost["q_dones"] = TABLE.ghost(st, "q_dones") + 1
+    return [(st, ("val", V.VNone))]
+
+
+@TABLE.register("queue.Queue.qsize")
+def _q_qsize(ex, st, args, kwargs, text):
+    """Queue.qsize(): number of queued items"""
+    st = st.copy()
+    return [(st, ("val", V.VInt(Val.llen(_q(st)))))]
+
+
+@TABLE.register("queue.Queue.empty")
+def _q_empty(ex, st, args, kwargs, text):
+    """Queue.empty(): no queued item (says nothing about tasks being executed)"""
+    st = st.copy()
+    return [(st, ("val", V.VBool(Val.llen(_q(st)) == 0)))]
+
+
+@TABLE.register("queue.Queue.join")
+def _q_join(ex, st, args, kwargs, text):
+    """Queue.join(): returns only when unfinished_tasks == 0 (other threads call task_done meanwhile)"""
+    q = ex.lift(args[0])
+    st = st.copy()
+    st.write(Val.ref(q), "unfinished_tasks", V.I(0))
+    st.ghost["q_items"] = V.fresh("q_after_join")
+    return [(st, ("val", V.VNone))]
+
+
+@TABLE.register("threading.Condition.wait")
+def _cond_wait(ex, st, args, kwargs, text):
+    """Condition.wait(timeout) on Queue.all_tasks_done: other threads may have finished tasks meanwhile
+    (unfinished_tasks may have dropped, never below 0)"""
+    st = st.copy()
+    cond = ex.lift(args[0])
+    qref = cond_owner(Val.ref(cond))           # only the queue this condition belongs to is affected
+    cur = st.read(qref, "unfinished_tasks")
+    nv = V.fresh("unfinished_after_wait")
+    st.assume(z3.And(V.is_int(nv), Val.i(nv) >= 0, z3.Implies(V.is_int(cur), Val.i(nv) <= Val.i(cur))))
+    st.write(qref, "unfinished_tasks", nv)
+    return [(st, ("val", V.VBool(V.fresh("notified", z3.BoolSort()))))]
+
+
+@TABLE.register("threading.Thread.start")
+def _th_start(ex, st, args, kwargs, text):
+    """Thread.start(): the target starts running in a new thread (ghost threads_started += 1), or RuntimeError"""
+    st = st.copy()
+    s_ex = st.copy()
+    s_ex.sig.append("Thread.start:RuntimeError")
+    st.ghost["threads_started"] = TABLE.ghost(st, "threads_started") + 1
+    return [(st, ("val", V.VNone)), (s_ex, ("raise", ex.make_exc(s_ex, RuntimeError)))]
+
+
+@TABLE.register("threading.Thread.is_alive")
+def _th_alive(ex, st, args, kwargs, text):
+    """Thread.is_alive(): an opaque bool"""
+    return [(st, ("val", V.VBool(V.fresh("alive", z3.BoolSort()))))]
+
+
+@TABLE.register("threading.Thread.join")
+def _th_join(ex, st, args, kwargs, text):
+    """Thread.join(timeout): returns None"""
+    return [(st, ("val", V.VNone))]
+
+
+@TABLE.register("threading.current_thread")
+def _cur_thread(ex, st, args, kwargs, text):
+    """threading.current_thread(): the Thread object of the caller"""
+    st = st.copy()
+    t = V.fresh("me")
+    st.assume(z3.And(V.is_obj(t), Val.ref(t) >= 0))
+    return [(st, ("val", t))]
+
+
+def _with_block(ex, st, cm, item, stmt):
+    """`with lock:` / `with condition:`: the body runs with the lock held; it is released on every exit.  For the pool
+    lock the monitor havocs the protected fields and assumes the lock invariant at acquisition and asserts it at release"""
+    T.used("with <lock>", _with_block.__doc__.strip())
+    from pyvc.symexec import RETURN, RAISE
+    mon = getattr(ex.env, "monitor", None)
+    cm = ex.lift(cm)
+    if item.optional_vars is not None:
+        raise T.Unsupported("with ... as name")
+    s0 = st.copy()
+    is_pool_lock = mon is not None and mon.is_lock(ex, s0, cm)
+    if is_pool_lock:
+        mon.acquire(ex, s0, cm)
+    out = []
+    for s, ctl in ex.exec_block(s0, stmt.body):
+        if is_pool_lock:
+            s = s.copy()
+            mon.release(ex, s, cm, ctl)
+        out.append((s, ctl))
+    return out
+
+
+TABLE.with_block = _with_block
+
+T.declare_ghost("w_counted", z3.BoolSort())        # the running worker is still included in __nb_threads
+T.declare_ghost("w_cs_uncounted", z3.BoolSort())
